@@ -442,6 +442,9 @@ def merge(m1, m2, **kargs):
                 v2 = vec([m2[mem(l, v1.size, seg, disp)] for l in loc.base.l])
                 v2 = v2.simplify(**kargs)
             else:
+                # the value recorded for loc may have been partly overwritten
+                # by a later store of m1: take what m1 holds there now.
+                v1 = m1[mem(loc, v1.size)]
                 v2 = m2[mem(loc, v1.size)]
         else:
             if loc._is_reg and (loc.etype & regtype.FLAGS):
@@ -454,8 +457,11 @@ def merge(m1, m2, **kargs):
         mm[loc] = vv
     # "import" m1 values into m2 locations:
     for loc, v2 in m2:
-        if mm.has(loc):
+        if mm.has(loc) and not loc._is_ptr:
             continue
+        # (pointer stores of m2 are merged again, in the order of m2, even if
+        # m1 stores to the same pointer: the store can be wider in m2 or be
+        # followed in m2 by an overlapping store through another pointer.)
         if loc._is_ptr:
             seg = loc.seg
             disp = loc.disp
@@ -463,6 +469,7 @@ def merge(m1, m2, **kargs):
                 v1 = vec([m1[mem(l, v2.size, seg, disp)] for l in loc.base.l])
                 v1 = v1.simplify(**kargs)
             else:
+                v2 = m2[mem(loc, v2.size)]
                 v1 = m1[mem(loc, v2.size)]
         else:
             if loc._is_reg and (loc.etype & regtype.FLAGS):
